@@ -5,7 +5,8 @@
 set -u
 name="$1"; prop="$2"; wt="${3:-/tmp/mut/confirm-$1}"
 src=/tmp/mut/out/$name
-export GOFLAGS=-mod=mod GOPROXY=off GOSUMDB=off
+export GOFLAGS=-mod=mod GOPROXY=off GOSUMDB=off GOTOOLCHAIN=local
+export PATH=/root/go/pkg/mod/golang.org/toolchain@v0.0.1-go1.23.7.linux-amd64/bin:$PATH
 log=/tmp/mut/confirm-$name.log
 : > $log
 if [ ! -d "$wt" ]; then git -C /repo worktree add -q --detach "$wt" HEAD >>$log 2>&1 || exit 2; fi
